@@ -74,7 +74,9 @@ def explore_parallel(h, fn, stop_at_first=False, budget_s=None):
             while pending:
                 if time.time() > deadline: exhausted = False; break
                 if h.max_paths is not None and stats.paths + stats.pruned > h.max_paths: exhausted = False; break
-                tasks = [([r], h.chunk_paths, deadline) for r in pending]
+                # few open sub-trees: explore only a handful of paths per task so that the leftovers fan out over all cores quickly
+                chunk = h.chunk_paths if len(pending) >= 2 * NPROC else max(2, min(h.chunk_paths, 6))
+                tasks = [([r], chunk, deadline) for r in pending]
                 pending = []
                 for res in pool.imap_unordered(_worker, tasks):
                     stats.add(res['stats']); osigs |= set(res['osigs'])
